@@ -693,6 +693,13 @@ func (c *wsConn) tryReconnect(ctx context.Context) bool {
 	c.closeChans()
 	vhook(c, "ws.reconn.chansClosed", nil)
 	c.incoming = make(chan io.Reader) // listen again for responses
+	// the reader of the failed connection is gone, but a pong it signalled may
+	// still be buffered; drop it so the connection loop does not touch c.conn
+	// (resetReadDeadline) while the goroutine below replaces it
+	select {
+	case <-c.pongs:
+	default:
+	}
 	go func() {
 		c.stopPings()
 
